@@ -50,14 +50,94 @@ class Ctx:
         self.max_decisions = max_decisions
         self.cuts = []  # stated concretisations / cuts on this path
         self.decided = {}  # ast id -> (term kept alive, outcome) : conditions already decided on this path
+        self.divcache = {}  # (dividend ast id, constant) -> (dividend, q, r)
+        self.arith_first = True
+        self.cvc5_fallback = True
+        self.cvc5_queries = 0
+        self._ext_model = None
 
     # -- solver plumbing -------------------------------------------------
     def check(self, *assumptions):
         t0 = time.perf_counter()
-        r = self.s.check(*assumptions)
+        self._ext_model = None
+        if self.divcache and self.arith_first:
+            # multiply / divide-by-constant constraints stall z3's bit-blaster; cvc5's integer
+            # encoding of the same BV semantics (--solve-bv-as-int=sum) decides them quickly
+            r = self._cvc5(assumptions, 20000)
+            if r == z3.unknown:
+                r = self.s.check(*assumptions)
+        else:
+            r = self.s.check(*assumptions)
+            if r == z3.unknown and self.cvc5_fallback:
+                r = self._cvc5(assumptions, 60000)
         self.solver_s += time.perf_counter() - t0
         self.queries += 1
         return r
+
+    def last_model(self):
+        """model of the last satisfiable check()"""
+        return self._ext_model if self._ext_model is not None else self.s.model()
+
+    def _cvc5(self, assumptions, tlimit_ms):
+        try:
+            import cvc5
+        except ImportError:
+            return z3.unknown
+        self.cvc5_queries += 1
+        tmp = z3.Solver()
+        tmp.add(self.s.assertions())
+        for a in assumptions:
+            tmp.add(a)
+        text = "(set-option :produce-models true)\n(set-logic ALL)\n" + tmp.to_smt2() + "\n(get-model)\n"
+        try:
+            slv = cvc5.Solver()
+            slv.setOption("solve-bv-as-int", "sum")
+            slv.setOption("tlimit-per", str(int(tlimit_ms)))
+            slv.setOption("produce-models", "true")
+            parser = cvc5.InputParser(slv)
+            parser.setStringInput(cvc5.InputLanguage.SMT_LIB_2_6, text, "query")
+            symm = parser.getSymbolManager()
+            outs = []
+            while True:
+                cmd = parser.nextCommand()
+                if cmd.isNull():
+                    break
+                outs.append(cmd.invoke(slv, symm))
+        except Exception:
+            return z3.unknown
+        verdict = None
+        model_text = ""
+        for o in outs:
+            t = o.strip()
+            if t in ("sat", "unsat", "unknown"):
+                verdict = t
+            elif t.startswith("("):
+                model_text = t
+        if verdict == "unsat":
+            return z3.unsat
+        if verdict != "sat":
+            return z3.unknown
+        # rebuild a z3 model from cvc5's values (evaluation only)
+        import re as _re
+
+        fix = z3.Solver()
+        for name, sort, val in _re.findall(r"\(define-fun\s+(\|[^|]*\||\S+)\s+\(\)\s+(\(_ BitVec \d+\)|Bool)\s+(#b[01]+|#x[0-9a-fA-F]+|true|false)\)", model_text):
+            name = name.strip("|")
+            if sort == "Bool":
+                fix.add(z3.Bool(name) == (val == "true"))
+            else:
+                width = int(sort.split()[2].rstrip(")"))
+                num = int(val[2:], 2 if val[1] == "b" else 16)
+                fix.add(z3.BitVec(name, width) == z3.BitVecVal(num, width))
+        if fix.check() != z3.sat:
+            return z3.unknown
+        m = fix.model()
+        # the model must satisfy the query (guards against a parsing slip)
+        for a in list(self.s.assertions()) + list(assumptions):
+            if not z3.is_true(m.eval(a, model_completion=True)):
+                return z3.unknown
+        self._ext_model = m
+        return z3.sat
 
     def add(self, c):
         self.s.add(c)
@@ -75,7 +155,7 @@ class Ctx:
                 raise PathAbort("infeasible")
             if r != z3.sat:
                 raise EngineLimit("solver unknown on path condition")
-            self.model = self.s.model()
+            self.model = self.last_model()
         return self.model
 
     # -- decisions ---------------------------------------------------------
@@ -143,7 +223,7 @@ class Ctx:
             return None
         if r == z3.unknown:
             raise EngineLimit("solver unknown on property query")
-        return self.s.model()
+        return self.last_model()
 
     def discharge_obligations(self):
         """no-overflow obligations: BV(W) arithmetic must coincide with Python's int on this path"""
@@ -449,7 +529,27 @@ def _bin(op, ivop=None, rev=False):
     return f
 
 
-def _divlike(op, ivop, rev=False):
+def _divmod_const(a, c, ia):
+    """(q, r) terms with a == q*c + r, 0 <= r < c for a positive constant c: defined by fresh
+    variables and linear constraints instead of a bit-blasted divider (cached per dividend)"""
+    ctx = cur()
+    key = (a.get_id(), c)
+    hit = ctx.divcache.get(key)
+    if hit is not None:
+        return hit[1], hit[2]
+    q = ctx.fresh("q", z3.BitVecSort(W))
+    r = ctx.fresh("r", z3.BitVecSort(W))
+    if ia is not None and _fits((ia[0] - c, ia[1] + c)):
+        qlo, qhi = ia[0] // c, ia[1] // c
+    else:
+        qlo, qhi = _LO // (2 * c), _HI // (2 * c)
+        ctx.oblig.append(z3.And(a >= bvval(qlo * c), a <= bvval(qhi * c)))
+    ctx.add(z3.And(q >= bvval(qlo), q <= bvval(qhi), r >= 0, r < bvval(c), a == q * bvval(c) + r))
+    ctx.divcache[key] = (a, q, r)
+    return q, r
+
+
+def _divlike(op, ivop, rev=False, which=0):
     def f(self, o):
         b = bv(o)
         if b is None:
@@ -463,6 +563,16 @@ def _divlike(op, ivop, rev=False):
         r = ivop(ia, ib) if (ia is not None and ib is not None) else None
         if r is not None and r[0] == r[1]:
             return r[0]
+        if ib is not None and ib[0] == ib[1] and ib[0] > 0 and CTX is not None:
+            c = ib[0]
+            if c == 1:
+                return self if which == 0 else 0
+            if c & (c - 1) == 0 and which == 0:
+                return self >> (c.bit_length() - 1)
+            if c & (c - 1) == 0:
+                return self & (c - 1)
+            qq, rr = _divmod_const(z3.simplify(a), c, ia)
+            return SymInt(qq if which == 0 else rr, r if r is not None else ((0, c - 1) if which else None))
         t = z3.simplify(op(a, b, r))
         if z3.is_bv_value(t):
             return t.as_signed_long()
@@ -520,8 +630,8 @@ class _IntOps:
     __rrshift__ = _bin(_shr, _i_shr, True)
     __floordiv__ = _divlike(_floordiv, _i_floordiv)
     __rfloordiv__ = _divlike(_floordiv, _i_floordiv, True)
-    __mod__ = _divlike(_mod, _i_mod)
-    __rmod__ = _divlike(_mod, _i_mod, True)
+    __mod__ = _divlike(_mod, _i_mod, False, 1)
+    __rmod__ = _divlike(_mod, _i_mod, True, 1)
 
     def __divmod__(self, o):
         return self // o, self % o
@@ -711,7 +821,7 @@ def realize_int(t, cap=None):
             raise EngineLimit("solver unknown while enumerating values")
         if r != z3.sat:
             break
-        vals.append(s.model().eval(t, model_completion=True).as_signed_long())
+        vals.append(ctx.last_model().eval(t, model_completion=True).as_signed_long())
     else:
         raise EngineLimit("more than %d feasible values at a concretisation point" % cap)
     if not vals:
@@ -722,6 +832,192 @@ def realize_int(t, cap=None):
             return v
     ctx.add(t == vals[-1])
     return vals[-1]
+
+
+# ---------------------------------------------------------------------------
+# mathematical integers (LIA back end) for pure arithmetic kernels: divmod by constants,
+# multiplication by constants -- where bit-blasting a 96-bit divider stalls.  No bit operators.
+
+
+def zt(v):
+    if isinstance(v, SymZ):
+        return v.t
+    if isinstance(v, bool):
+        return z3.IntVal(int(v))
+    if isinstance(v, int):
+        return z3.IntVal(int(v))
+    if isinstance(v, SymBool):
+        return z3.If(v.t, z3.IntVal(1), z3.IntVal(0))
+    if isinstance(v, SymInt):
+        return z3.BV2Int(v.t, True)
+    return None
+
+
+def mkz(t):
+    t = z3.simplify(t)
+    if z3.is_int_value(t):
+        return t.as_long()
+    return SymZ(t)
+
+
+def _zcmp(op):
+    def f(self, o):
+        b = zt(o)
+        if b is None:
+            return NotImplemented
+        return mkb(op(self.t, b))
+
+    return f
+
+
+def _zbin(op, rev=False):
+    def f(self, o):
+        b = zt(o)
+        if b is None:
+            return NotImplemented
+        return mkz(op(b, self.t) if rev else op(self.t, b))
+
+    return f
+
+
+def _zdiv(rev, which):
+    def f(self, o):
+        b = zt(o)
+        if b is None:
+            return NotImplemented
+        a = self.t
+        if rev:
+            a, b = b, a
+        bb = z3.simplify(b)
+        if not z3.is_int_value(bb) or bb.as_long() <= 0:
+            if B(b == 0):
+                raise ZeroDivisionError("integer division or modulo by zero")
+            if not B(b > 0):
+                raise Unsupported("division by a negative symbolic integer")
+        # b > 0: Python floor division and modulo coincide with SMT-LIB div / mod
+        return mkz(a / b) if which == 0 else mkz(a % b)
+
+    return f
+
+
+class SymZ:
+    """Python int as a mathematical integer (z3 Int)"""
+
+    __slots__ = ("t",)
+    _vf_sym = True
+    _vf_z = True
+
+    def __init__(self, t):
+        self.t = t
+
+    __eq__ = _zcmp(lambda a, b: a == b)
+    __ne__ = _zcmp(lambda a, b: a != b)
+    __lt__ = _zcmp(lambda a, b: a < b)
+    __le__ = _zcmp(lambda a, b: a <= b)
+    __gt__ = _zcmp(lambda a, b: a > b)
+    __ge__ = _zcmp(lambda a, b: a >= b)
+    __add__ = _zbin(lambda a, b: a + b)
+    __radd__ = _zbin(lambda a, b: a + b, True)
+    __sub__ = _zbin(lambda a, b: a - b)
+    __rsub__ = _zbin(lambda a, b: a - b, True)
+    __mul__ = _zbin(lambda a, b: a * b)
+    __rmul__ = _zbin(lambda a, b: a * b, True)
+    __floordiv__ = _zdiv(False, 0)
+    __rfloordiv__ = _zdiv(True, 0)
+    __mod__ = _zdiv(False, 1)
+    __rmod__ = _zdiv(True, 1)
+
+    def __divmod__(self, o):
+        return self // o, self % o
+
+    def __rdivmod__(self, o):
+        return o // self, o % self
+
+    def __neg__(self):
+        return mkz(-self.t)
+
+    def __pos__(self):
+        return self
+
+    def __abs__(self):
+        return mkz(z3.If(self.t < 0, -self.t, self.t))
+
+    def __bool__(self):
+        return cur().branch(self.t != 0)
+
+    def __hash__(self):
+        return 0
+
+    def __index__(self):
+        ctx = cur()
+        m = ctx.get_model()
+        v = m.eval(self.t, model_completion=True).as_long()
+        r = ctx.check(self.t != v)
+        if r == z3.unsat:
+            ctx.add(self.t == v)
+            return v
+        raise EngineLimit("symbolic integer (LIA) at a concretisation point")
+
+    __int__ = __index__
+
+    def __truediv__(self, o):
+        if isinstance(o, float) and not getattr(o, "_vf_sym", False) and o == int(o) and o > 0:
+            # IEEE-754 correct rounding: float(n) is exact for |n| < 2**53 and an exactly
+            # representable quotient is returned exactly.  Anything else is not modelled here.
+            c = int(o)
+            if B(z3.And(self.t > -(2**53), self.t < 2**53)) and B(self.t % c == 0):
+                return SymZFloat(self // c)
+            raise Unsupported("inexact float division of a symbolic integer (LIA back end)")
+        if type(o) is int and o > 0:
+            return SymRat(self, o)
+        raise Unsupported("true division of a symbolic int")
+
+    def __rtruediv__(self, o):
+        raise Unsupported("true division by a symbolic int")
+
+    def _bits(self, *a):
+        raise Unsupported("bit operation on a mathematical-integer proxy (LIA back end)")
+
+    __and__ = __rand__ = __or__ = __ror__ = __xor__ = __rxor__ = __lshift__ = __rshift__ = __rlshift__ = __rrshift__ = __invert__ = _bits
+
+    def bit_length(self):
+        raise Unsupported("bit_length on the LIA back end")
+
+    def __format__(self, spec):
+        return "<symz>"
+
+    def __repr__(self):
+        return f"SymZ({self.t})"
+
+    def __copy__(self):
+        return self
+
+    def __deepcopy__(self, memo):
+        return self
+
+
+class SymZFloat:
+    """a double known to hold exactly the integer `z` (|z| < 2**53)"""
+
+    _vf_sym = True
+    _vf_float = True
+
+    def __init__(self, z):
+        self.z = z
+
+    def round_half_even_int(self):
+        return self.z
+
+    def __int__(self):
+        return self.z
+
+    __trunc__ = __int__
+
+    def __float__(self):
+        raise Unsupported("symbolic float reached C code")
+
+    def __format__(self, spec):
+        return "<symfloat>"
 
 
 # ---------------------------------------------------------------------------
